@@ -118,6 +118,44 @@ def run(rep, tier):
     rejected |= helper_rejected
     rep.minimum('R16.3', len(published), 5, 'system variables published with setGlobal')
     rep.check(published <= rejected and SYSTEM_VARS <= rejected, 'R16.3', 'assign|protected names', asg.where(), 'published system variables %s; assign() rejects %s' % (sorted(published), sorted(rejected)))
+    # every use of `location` that reaches the Lua state is dominated by every rejecting test (or by the helper that holds it)
+    ga = cfgm.CFG(asg)
+    loc_param = None
+    for n in asg.walk():
+        if n['k'] == 'DeclRefExpr' and n['ref'].get('name') == 'location' and n['ref'].get('kind', 'ParmVar') in ('ParmVar', 'ParmVarDecl'):
+            loc_param = n['ref'].get('lid', n['ref'].get('id'))
+            break
+    guards = []       # (name, node that must dominate)
+    for n in asg.walk():
+        if n['k'] == 'IfStmt' and any(s_['k'] == 'CXXThrowExpr' for s_ in sub(n['c'][1])):
+            names = [s_['str'] for s_ in sub(n['c'][0]) if s_['k'] == 'StringLiteral' and 'str' in s_ and s_['str'].startswith('_')]
+            calls = [s_ for s_ in sub(n['c'][0]) if s_['k'] in ('CXXMemberCallExpr', 'CXXOperatorCallExpr', 'CallExpr') and s_['id'] in ga.pos]
+            for nm in names:
+                if calls:
+                    guards.append((nm, calls[0]))
+    for n in asg.walk():
+        if n.get('callee'):
+            for t in fb.targets(n):
+                if t.file.endswith('LuaDataModel.cpp') and t.q != asg.q:
+                    for m in t.walk():
+                        if m['k'] == 'IfStmt' and any(s_['k'] == 'CXXThrowExpr' for s_ in sub(m['c'][1])):
+                            for s_ in sub(m['c'][0]):
+                                if s_['k'] == 'StringLiteral' and s_.get('str', '').startswith('_') and n['id'] in ga.pos:
+                                    guards.append((s_['str'], n))
+    uses = []
+    for n in asg.walk():
+        q = n.get('callee', {}).get('q', '')
+        if n['k'] in ('CXXMemberCallExpr', 'CallExpr') and n['id'] in ga.pos and q.split('::')[-1] in ('eval', 'luaEval', 'evalAsData', 'luaL_dostring', 'luaL_loadstring', 'setGlobal', 'lua_setglobal', 'lua_setfield'):
+            if any(s_['k'] == 'DeclRefExpr' and s_['ref'].get('name') == 'location' for a_ in n.get('c', [])[1:] for s_ in sub(a_)):
+                uses.append(n)
+    if not uses:
+        raise AnalysisBroken('LuaDataModel::assign: no statement that writes the location found')
+    domt = ga.dominators()
+    for u in uses:
+        missing = sorted({nm for nm, g in guards} - {nm for nm, g in guards if ga.dominates(g['id'], u['id'], domt)})
+        missing = sorted(set(missing) | (SYSTEM_VARS - {nm for nm, g in guards}))
+        rep.check(not missing, 'R16.3', 'assign|write#%d dominated by the protected-name tests' % sum(1 for u2 in uses if u2['loc'][1] < u['loc'][1]), locstr(u),
+                  'the write `%s` is %s' % (fb.text(u)[:50], 'reached only after all protected-name tests' if not missing else 'reachable WITHOUT the test(s) for %s: that system variable can be overwritten through this path' % missing))
     ini = fb.fn('uscxml::LuaDataModel::init')
     gi = cfgm.CFG(ini)
     touches = [n for n in ini.walk() if (n.get('callee', {}).get('q', '').startswith('luabridge::setGlobal') or n.get('callee', {}).get('q', '').endswith('::eval')) and not any(
